@@ -123,17 +123,19 @@ type variable struct {
 }
 
 type fnTrans struct {
-	p      *pkgInfo
-	fd     *ast.FuncDecl
-	vars   map[string]*variable
-	out    *strings.Builder
-	retExp func() string // return tuple expression in the current state
-	named  []string      // named results
-	nextID int
+	p        *pkgInfo
+	fd       *ast.FuncDecl
+	vars     map[string]*variable
+	out      *strings.Builder
+	retExp   func() string // return tuple expression in the current state
+	named    []string      // named results
+	nextID   int
 	optional bool     // function contains loops: it returns Option (none = fuel exhausted)
 	aux      []string // auxiliary loop definitions emitted before the function
 	nextLoop int
 	retType  string
+	// piece mode (loop bodies and straight-line segments as separate non-recursive definitions)
+	pieceRet func(ret string) string // how a `return` inside a segment is rendered
 }
 
 func (t *fnTrans) fail(n ast.Node, f string, a ...interface{}) {
@@ -1065,6 +1067,9 @@ func (t *fnTrans) stmts(list []ast.Stmt, lvl int, rest func(lvl int)) {
 }
 
 func (t *fnTrans) wrapRet(e string) string {
+	if t.pieceRet != nil {
+		return t.pieceRet(e)
+	}
 	if t.optional {
 		return "some " + e
 	}
@@ -1482,6 +1487,7 @@ func main() {
 		{"Halve", false}, {"_butterflyGeneric", false}, {"mulByConstant", false},
 	}
 	write(filepath.Join(out, "FFLimbs.lean"), hdr+emitPkg(ff, "FF", ffFns))
+	write(filepath.Join(out, "FFInverse.lean"), hdr+"namespace I3.Gen.FFInv\n\n"+translatePieces(ff, "Inverse")+"end I3.Gen.FFInv\n")
 
 	ffg := loadPkg(repo, "ffg", []string{"element.go", "arith.go"})
 	ffgFns := []spec{
@@ -1491,4 +1497,220 @@ func main() {
 		{"_butterflyGeneric", false}, {"mulByConstant", false},
 	}
 	write(filepath.Join(out, "FFGLimbs.lean"), hdr+emitPkg(ffg, "FFG", ffgFns))
+}
+
+// ---------------------------------------------------------------------------------------------
+// piece mode: a function of the shape  <pre-statements>; for { (for cond {body})* ; <tail statements> }
+// is emitted as non-recursive definitions — one (cond, body) pair per inner loop and one segment per
+// straight-line stretch — so that the hand-written Lean loop (with fuel) composes regenerated pieces.
+
+func (t *fnTrans) usedNames(stmts []ast.Stmt) ([]string, string) {
+	seen := map[string]string{}
+	for _, st := range stmts {
+		ast.Inspect(st, func(n ast.Node) bool {
+			id, ok := n.(*ast.Ident)
+			if !ok {
+				return true
+			}
+			v, ok := t.vars[id.Name]
+			if !ok {
+				return true
+			}
+			switch v.kind {
+			case kArr:
+				for _, c := range cells(v) {
+					seen[c] = "Nat"
+				}
+			case kWord:
+				seen[v.store] = "Nat"
+			case kBool:
+				seen[v.store] = "Bool"
+			}
+			return true
+		})
+	}
+	var names []string
+	for k := range seen {
+		names = append(names, k)
+	}
+	sort.Strings(names)
+	var sb strings.Builder
+	for _, n := range names {
+		fmt.Fprintf(&sb, " (%s : %s)", n, seen[n])
+	}
+	return names, sb.String()
+}
+
+func (t *fnTrans) assignedNames(stmts []ast.Stmt) ([]string, []string) {
+	acc := map[string]bool{}
+	t.assigned(stmts, map[string]bool{}, acc)
+	var names, tys []string
+	for k := range acc {
+		names = append(names, k)
+	}
+	sort.Strings(names)
+	for _, n := range names {
+		tys = append(tys, t.typeOfName(n))
+	}
+	return names, tys
+}
+
+// declare (without emitting) the variables introduced by a statement list, so that later pieces know them
+func (t *fnTrans) predeclare(stmts []ast.Stmt) {
+	dummy := t.out
+	t.out = &strings.Builder{}
+	saved := t.pieceRet
+	t.pieceRet = func(e string) string { return e }
+	snap := t.optional
+	t.stmts(stmts, 0, func(int) {})
+	t.optional = snap
+	t.pieceRet = saved
+	t.out = dummy
+}
+
+func translatePieces(p *pkgInfo, goName string) string {
+	fd, ok := p.funcs[goName]
+	if !ok {
+		fd, ok = p.funcs["M."+goName]
+	}
+	if !ok {
+		die("%s: function %s not found", p.name, goName)
+	}
+	t := &fnTrans{p: p, fd: fd, vars: map[string]*variable{}, out: &strings.Builder{}}
+	var sig []string
+	for _, n := range elemParams(fd) {
+		t.vars[n] = &variable{kind: kArr, n: p.limbs, store: n}
+		sig = append(sig, cells(t.vars[n])...)
+	}
+	t.retExp = func() string { return t.retWith(nil) }
+	nret := len(t.retCells())
+	parts := make([]string, nret)
+	for i := range parts {
+		parts[i] = "Nat"
+	}
+	t.retType = strings.Join(parts, " × ")
+	body := fd.Body.List
+	// split: pre-statements, the infinite loop
+	var pre []ast.Stmt
+	var loop *ast.ForStmt
+	for i, st := range body {
+		if f, ok := st.(*ast.ForStmt); ok && f.Cond == nil && f.Init == nil && f.Post == nil {
+			if i != len(body)-1 {
+				die("%s: statements after the main loop", goName)
+			}
+			loop = f
+			break
+		}
+		pre = append(pre, st)
+	}
+	if loop == nil {
+		die("%s: no `for {}` main loop found", goName)
+	}
+	name := leanName(goName)
+	var sb strings.Builder
+	emitSeg := func(segName string, stmts []ast.Stmt, params string, assigned []string, tys []string) {
+		pat := tuplePat(assigned)
+		t.out = &strings.Builder{}
+		t.pieceRet = func(e string) string { return "(some " + e + ", " + pat + ")" }
+		t.stmts(stmts, 1, func(l int) { fmt.Fprintf(t.out, "%s(none, %s)\n", ind(l), pat) })
+		t.pieceRet = nil
+		fmt.Fprintf(&sb, "def %s%s : Option (%s) × (%s) :=\n%s\n", segName, params, t.retType, strings.Join(tys, " × "), t.out.String())
+	}
+	// segment 0: the pre-loop statements; its state = every variable it declares or assigns
+	{
+		params := " (" + strings.Join(sig, " ") + " : Nat)"
+		// translate once to learn the declared variables, then emit with the full state tuple
+		snap := t.snapshot()
+		t.predeclare(pre)
+		declared := t.vars
+		t.vars = snap
+		seen := map[string]string{}
+		for n, v := range declared {
+			if _, isParam := snap[n]; isParam {
+				continue
+			}
+			switch v.kind {
+			case kArr:
+				for _, c := range cells(v) {
+					seen[c] = "Nat"
+				}
+			case kWord:
+				seen[v.store] = "Nat"
+			case kBool:
+				seen[v.store] = "Bool"
+			}
+		}
+		for _, c := range t.retCells() {
+			seen[c] = "Nat"
+		}
+		var names, tys []string
+		for k := range seen {
+			names = append(names, k)
+		}
+		sort.Strings(names)
+		for _, n := range names {
+			tys = append(tys, seen[n])
+		}
+		pat := tuplePat(names)
+		t.out = &strings.Builder{}
+		t.pieceRet = func(e string) string { return "(some " + e + ", " + pat + ")" }
+		// early returns happen before later declarations exist: bind every state variable first
+		for i, n := range names {
+			isParam := false
+			for _, sname := range sig {
+				if sname == n {
+					isParam = true
+				}
+			}
+			if !isParam {
+				if tys[i] == "Bool" {
+					fmt.Fprintf(t.out, "  let %s := false\n", n)
+				} else {
+					fmt.Fprintf(t.out, "  let %s := 0\n", n)
+				}
+			}
+		}
+		t.stmts(pre, 1, func(l int) { fmt.Fprintf(t.out, "%s(none, %s)\n", ind(l), pat) })
+		t.pieceRet = nil
+		fmt.Fprintf(&sb, "/-- state order: %s -/\ndef %s_pre%s : Option (%s) × (%s) :=\n%s\n", strings.Join(names, " "), name, params, t.retType, strings.Join(tys, " × "), t.out.String())
+	}
+	// pieces of the main loop body
+	var seg []ast.Stmt
+	k, j := 0, 0
+	flush := func() {
+		if len(seg) == 0 {
+			return
+		}
+		j++
+		_, params := t.usedNames(seg)
+		an, at := t.assignedNames(seg)
+		un, _ := t.usedNames(seg)
+		fmt.Fprintf(&sb, "/-- parameters: %s ; state out: %s -/\n", strings.Join(un, " "), strings.Join(an, " "))
+		emitSeg(fmt.Sprintf("%s_seg%d", name, j), seg, params, an, at)
+		seg = nil
+	}
+	for _, st := range loop.Body.List {
+		if f, ok := st.(*ast.ForStmt); ok {
+			flush()
+			if f.Cond == nil || f.Init != nil || f.Post != nil {
+				die("%s: unsupported inner loop", goName)
+			}
+			k++
+			stmts := append([]ast.Stmt{&ast.ExprStmt{X: f.Cond}}, f.Body.List...)
+			un, params := t.usedNames(stmts)
+			an, at := t.assignedNames(f.Body.List)
+			fmt.Fprintf(&sb, "/-- parameters: %s ; state out: %s -/\n", strings.Join(un, " "), strings.Join(an, " "))
+			fmt.Fprintf(&sb, "def %s_loop%d_cond%s : Bool :=\n  %s\n\n", name, k, params, t.cond(f.Cond))
+			t.out = &strings.Builder{}
+			pat := tuplePat(an)
+			snap := t.snapshot()
+			t.stmts(f.Body.List, 1, func(l int) { fmt.Fprintf(t.out, "%s%s\n", ind(l), pat) })
+			t.vars = snap
+			fmt.Fprintf(&sb, "def %s_loop%d_body%s : %s :=\n%s\n", name, k, params, strings.Join(at, " × "), t.out.String())
+			continue
+		}
+		seg = append(seg, st)
+	}
+	flush()
+	return sb.String()
 }
